@@ -334,6 +334,10 @@ def escape(P, R):
                 f'the node created in the target manager `{want}` is '
                 'wrapped by another manager', unit=f.unit.rel,
                 line=f.lineno)
+    parser_stack(P, R)
+
+
+def parser_stack(P, R):
     # the parser only ever sees the integer manager
     f = P.func('dd.autoref.BDD.add_expr')
     calls = [au.src(c).replace(' ', '') for c in au.calls_in(f.node)]
@@ -347,6 +351,35 @@ def escape(P, R):
             'dd.autoref hands itself to the parser: after a syntax error '
             'the cached LR stack keeps Function objects (and their '
             'references) alive', unit=f.unit.rel, line=f.lineno)
+
+
+
+def r_parser(P, R):
+    parser_stack(P, R)
+    # the translator drops the manager and the LR stack after a parse
+    f = P.func('dd._parser._Translator.parse')
+    cs = sorted(au.calls_in(f.node), key=lambda c: (c.lineno, c.col_offset))
+    calls = [au.call_name(c) for c in cs]
+    if 'parse' in calls and '_reset_state' in calls and calls.index(
+            '_reset_state') > calls.index('parse'):
+        R.holds('R-PAIR', f.qualname, 'parser state is reset after each '
+                'successful parse')
+    else:
+        R.violation('R-PAIR', 'parser-stack', f.qualname, '_reset_state',
+                    'the cached translator keeps the manager and the LR '
+                    'stack of the previous formula', unit=f.unit.rel,
+                    line=f.lineno)
+    g = P.func('dd._parser._Translator._reset_state')
+    text = au.src(g.node).replace(' ', '')
+    if 'self._bdd=None' in text and 'self.parser.restart()' in text:
+        R.holds('R-PAIR', g.qualname, 'drops the manager and restarts the '
+                'LR stacks')
+    else:
+        R.violation('R-PAIR', 'parser-stack', g.qualname, 'restart',
+                    '_reset_state no longer drops the manager and '
+                    'restarts the LR stacks', unit=g.unit.rel,
+                    line=g.lineno)
+r_parser.NAME = 'R-PAIR(parser state)'
 
 
 def r_handles(P, R):
